@@ -106,11 +106,22 @@ def parse(items, i=0, stop=()):
             body.append(Node("if", arms=arms))
             continue
         m = re.match(r"^(\w+)=(.*)$", ln)
-        if m:
+        if m and not re.search(r"&&|\|\|", re.sub(r'"[^"]*"|\'[^\']*\'|`[^`]*`', "", ln)):
             body.append(Node("assign", name=m.group(1), value=m.group(2)))
             continue
-        if re.match(r"^(for|while|until|case|function)\b", ln) or ln.endswith("{") or "&&" in ln.replace("2>&1", "") or "||" in ln or "&" in ln.replace("2>&1", "").replace("&&", ""):
+        m = re.match(r"^for (\w+) in (.*); do$", ln)
+        if m:
+            b, i = parse(items, i, stop=("done",))
+            i += 1
+            body.append(Node("for", var=m.group(1), words=m.group(2), body=b))
+            continue
+        if re.match(r"^(for|while|until|case|function)\b", ln) or ln.endswith("{") or "&" in ln.replace("2>&1", "").replace("&&", ""):
             raise ShUnsupported(f"construct outside subset: {ln}")
+        if "&&" in ln.replace("2>&1", "") or "||" in ln:
+            if any(ch in ln for ch in "()`") or "[[" in ln or re.search(r"(^|\s)\[\s", ln):
+                raise ShUnsupported(f"construct outside subset: {ln}")
+            body.append(Node("andor", text=ln))
+            continue
         body.append(Node("cmd", text=ln))
     return body, i
 
@@ -537,7 +548,70 @@ class Engine:
                 rest = toks[i:]
                 q.args = [t[1] if t[0] == "word" else (("-" + t[1]),) for t in rest]
             return paths
+        if st.kind == "for":
+            # unquoted expansion: split at blanks of the concrete parts (symbolic operands contain no IFS characters: stated assumption)
+            val = self.expand(p, st.words)
+            words, cur = [], []
+            for part in val:
+                if isinstance(part, str):
+                    pieces = re.split(r"(\s+)", part)
+                    for pc_ in pieces:
+                        if not pc_:
+                            continue
+                        if pc_.isspace():
+                            if cur:
+                                words.append(norm(cur))
+                                cur = []
+                        else:
+                            cur.append(pc_)
+                else:
+                    cur.append(part)
+            if cur:
+                words.append(norm(cur))
+            if len(words) > 4:
+                raise ShUnsupported("for loop over more than 4 words")
+            paths = [p]
+            for wv in words:
+                for q in paths:
+                    if q.exit is None:
+                        q.vars[st.var] = wv
+                paths = self.run_block(paths, st.body)
+            return paths
+        if st.kind == "andor":
+            return self.andor(p, st.text)
         return self.simple(p, st.text)
+
+    def andor(self, p, t):
+        """A && B || C ...: left to right; a command that fails as a NON-final member of the list does not trigger errexit
+        (bash: 'any command executed in a && or || list except the command following the final && or ||')."""
+        parts = re.split(r"\s+(&&|\|\|)\s+", t.replace("2>&1", "\x00"))
+        parts = [x.replace("\x00", "2>&1") for x in parts]
+        cmds, ops = parts[0::2], parts[1::2]
+        saved = p.errexit
+        states = [(p, False)]           # (path, status of the list so far is failure)
+        for i, c in enumerate(cmds):
+            last = i == len(cmds) - 1
+            nxt = []
+            for q, failed in states:
+                if q.exit is not None:
+                    nxt.append((q, failed))
+                    continue
+                if i > 0:
+                    op = ops[i - 1]
+                    if (op == "&&" and failed) or (op == "||" and not failed):
+                        nxt.append((q, failed))       # skipped: status unchanged
+                        continue
+                q.errexit = saved if last else False
+                before = len(q.log)
+                for r in self.simple(q, c):
+                    f = len(r.log) > before and r.log[-1][2] == "fail"
+                    nxt.append((r, f))
+            states = nxt
+        out = []
+        for q, failed in states:
+            q.errexit = saved
+            out.append(q)
+        return out
 
     def simple(self, p, t):
         t = re.sub(r"\s+2>&1", "", t)
@@ -564,6 +638,37 @@ class Engine:
         if w[0] == "exit":
             p.exit = z3.IntVal(int(w[1]))
             return [p]
+        if w[0] == "echo" and ">>" in w:
+            if w.index(">>") != len(w) - 2:
+                raise ShUnsupported(t)
+            tgt = self.abspath(p, self.expand(p, w[-1]))
+            val = self.expand(p, " ".join(w[1:w.index(">>")]))
+            r = self.lookup(p, tgt)
+            if r is not None:
+                if r[0] and r[2] is not None and r[2][0] == "echo":
+                    p.fs.append((tgt, True, False, ("echo", r[2][1] + "\n" + show(val))))
+                elif not r[0]:
+                    p.fs.append((tgt, True, False, ("echo", show(val))))
+                else:
+                    p.fs.append((tgt, True, False, ("appended", r[2], show(val))))
+                return [p]
+            # never touched in this history: it may pre-exist (with unknown content) or not
+            out = []
+            ex = z3.simplify(self.exists(p, tgt))
+            if not z3.is_false(ex):
+                a_ = p.clone()
+                if not z3.is_true(ex):
+                    a_.pc.append(ex)
+                if z3.is_true(ex) or self.feasible(a_):
+                    a_.fs.append((tgt, True, False, ("appended", ("initial", show(tgt)), show(val))))
+                    out.append(a_)
+            if not z3.is_true(ex):
+                b_ = p.clone()
+                b_.pc.append(z3.Not(ex))
+                if self.feasible(b_):
+                    b_.fs.append((tgt, True, False, ("echo", show(val))))
+                    out.append(b_)
+            return out
         if w[0] == "echo":
             if ">" in w:
                 if w.index(">") != len(w) - 2:
